@@ -19,4 +19,7 @@ PrintsOnlyOnSuccess == (s.printed # "none") = (s.exitc = 0)
 O1_CapabilityQueryNeverSucceeds == (s.pc = "done" /\ s.opt.cap /\ ~s.opt.auto) => (s.exitc = 1 /\ s.printed = "none")
 (* with --auto the capability query can succeed - exactly when the refresh of Discover.connect was answered (O2: whether or not the capability request was) *)
 AutoCapabilityQuery == (s.pc = "done" /\ s.opt.cap /\ s.opt.auto /\ hist[1]) => ((s.exitc = 0) = s.online /\ (s.printed = "caps") = s.online)
+(* liveness: the command / operation terminates when its steps keep being taken *)
+FairQSpec == QSpec /\ WF_<<s, hist>>(QNext)
+Terminates == <>(s.pc = "done")
 =======================================================================
